@@ -228,7 +228,7 @@ pub fn examine(seed: u64, idx: u64, s: &dyn SuiteOps) -> Verdicts {
                     continue;
                 }
                 let changed: Vec<bool> = mine.iter().zip(rolj.iter()).map(|(a, b)| a.1 != b.1).collect();
-                if changed[mr] && !changed[mn] && changed.iter().filter(|x| **x).count() == 1 {
+                if changed[mr] && !changed[mn] {
                     found = true;
                     break;
                 }
@@ -236,7 +236,7 @@ pub fn examine(seed: u64, idx: u64, s: &dyn SuiteOps) -> Verdicts {
             if !found {
                 let mut wj = w.clone();
                 wj.note = format!("c17 fake masking key differential on op {i}");
-                out.v.push((Violation { clause: "fake_masking_key_not_fresh", op: i, detail: "no single draw of the no-record login moves the masked response alone: the fake masking key is not drawn from the tape".into() }, wj));
+                out.v.push((Violation { clause: "fake_masking_key_not_fresh", op: i, detail: "no draw of the no-record login moves the masked response without moving the masking nonce: the fake masking key is not drawn from the tape".into() }, wj));
             }
         }
     }
